@@ -178,6 +178,12 @@ class C08:
                 dotend += 1
             variants.append(variant("spelling:" + kind, **kw))
         variants.append(variant("relocated", path=os.path.join(Bp, name)))
+        # the same tree reached through a symbolic link in the ANCESTRY of the content path (the payload itself holds
+        # no link, its name is the same): <scratch>/via-link -> A/deep
+        lk = os.path.join(scratch, "via-link")
+        os.symlink(A, lk)
+        variants.append(variant("relocated-through-symlinked-parent", path=os.path.join(lk, name)))
+        variants.append(variant("relocated-through-symlinked-parent-relative", cwd=scratch, path=os.path.join("via-link", name)))
         # same bytes, other metadata: modification times and permission bits are not part of the payload
         Cp = os.path.join(scratch, "C", "stat")
         if tree["single"]:
@@ -409,6 +415,10 @@ def _do_op(op, sandbox):
     if kind == "rebuild":
         rebuild = drive.mod("rebuild")
         dest = p(op["dest"])
+        if op.get("block_dest"):
+            os.makedirs(dest, exist_ok=True)
+            with open(os.path.join(dest, "p"), "wb") as fd:        # the payload directory is called 'p'
+                fd.write(b"in the way")
         try:
             if op.get("via") == "cli":
                 oc = drive.cli_execute(list(op.get("prefix") or ()) + ["rebuild", "-m", p(op["meta"]), "-c", p(op["search"]), "-d", dest])
@@ -619,6 +629,14 @@ class C09:
                 fresh_id[0] += 1
                 bad = rng.choice(["meta/unsafe.torrent", "meta/garbage.torrent", "meta/nolength.torrent",
                                   "meta/nolength.torrent", "meta/noroot.torrent", "metabad", "metabad"])
+                if metas and rng.random() < 0.25:
+                    # a rebuild that FAILS HALF-WAY: a regular file sits where the torrent's directory must be created
+                    hist.append({"op": "rebuild", "meta": rng.choice(metas)[0], "search": ".", "dest": f"dest{fresh_id[0]}",
+                                 "via": rng.choice(["lib", "cli"]), "block_dest": True})
+                    fresh_id[0] += 1
+                    hist.append({"op": "rebuild", "meta": rng.choice(metas)[0], "search": ".", "dest": f"dest{fresh_id[0]}",
+                                 "via": rng.choice(["lib", "cli"])})
+                    continue
                 if bad == "metabad":
                     hist.append({"op": "rebuild", "meta": bad, "search": ".", "dest": f"dest{fresh_id[0]}",
                                  "via": rng.choice(["lib", "cli"]), "prefix": rng.choice([None, ["-q"], ["-v"]])})
@@ -713,7 +731,7 @@ class C09:
                     return {"inconclusive": "executor error", "traceback": str(ra.get("harness_error") or rb_.get("harness_error"))[-1500:]}
                 steps += 1
                 counters[op["op"] + "_steps"] = counters.get(op["op"] + "_steps", 0) + 1
-                if op.get("meta", "").endswith(("unsafe.torrent", "garbage.torrent", "nolength.torrent", "noroot.torrent", "metabad")):
+                if op.get("block_dest") or op.get("meta", "").endswith(("unsafe.torrent", "garbage.torrent", "nolength.torrent", "noroot.torrent", "metabad")):
                     counters["failing_operation_steps"] = counters.get("failing_operation_steps", 0) + 1
                 if op["op"] == "create" and op.get("out") is None:
                     counters["create_at_default_location_steps"] = counters.get("create_at_default_location_steps", 0) + 1
